@@ -46,6 +46,8 @@ func main() {
 			usage()
 		}
 		common.Exit(runReplay(os.Args[2]))
+	case "debugcase":
+		common.Exit(runDebugCase(os.Args[2], os.Args[3]))
 	case "selftest":
 		if len(os.Args) < 3 {
 			usage()
